@@ -196,3 +196,37 @@ def run_p8(chk, P8, repo):
                           'with it whether a name comment is needed)', line=loop.lineno,
                           witness='remove two etas that precede a BLOCK(2) with default names, then split that block: the '
                                   'new records lack their name comments and are re-read as OMEGA_1_1/OMEGA_2_2')
+
+
+def run_p9(chk, P9, repo):
+    """record editing: filtering the children of a record never drops a line break"""
+    from sa import lints
+    n = 0
+    for modname, clsname in (('pharmpy.model.external.nonmem.records.omega_record', 'OmegaRecord'),
+                             ('pharmpy.model.external.nonmem.records.theta_record', 'ThetaRecord')):
+        m = repo.module(modname)
+        cls = m.classes.get(clsname)
+        if cls is None:
+            raise AnalysisError(f'{clsname} not found')
+        for mname, f in cls.methods.items():
+            for L in [x for x in walk_no_nested(f.node) if isinstance(x, ast.For) and isinstance(x.target, ast.Name)
+                      and unparse(x.iter) in ('self.root.children', 'self.root.children[:]')]:
+                v = L.target.id
+
+                def target(s_, v=v):
+                    return isinstance(s_, ast.Expr) and isinstance(s_.value, ast.Call) \
+                        and isinstance(s_.value.func, ast.Attribute) and s_.value.func.attr == 'append' \
+                        and len(s_.value.args) == 1 and isinstance(s_.value.args[0], ast.Name) and s_.value.args[0].id == v
+                if not any(target(s_) for s_ in ast.walk(L)):
+                    continue
+                n += 1
+                may, must = lints.exec_under(L.body, {f'{v}.rule': 'NEWLINE'}, target)
+                chk.instance(P9, f'{clsname}.{mname}: children filtered into a new record; a NEWLINE child is always kept: {must}')
+                if not must:
+                    chk.violation(P9, m.rel, f.qualname, f'for {v} in self.root.children: ... append({v})',
+                                  'a line break that follows a dropped item can be dropped with it: the record runs into the next '
+                                  'one', line=L.lineno,
+                                  witness="'$OMEGA 0.1 0.2' followed by $SIGMA, remove the second eta: '$OMEGA 0.1 $SIGMA 0.1' "
+                                          "cannot be parsed")
+    if n < 2:
+        raise AnalysisError(f'P9: only {n} child filters found')
